@@ -556,7 +556,7 @@ func checkC19(r *verdict.Run) {
 	}
 	parallel(len(sel), 16, func(i int) { c19DirtyGating(r, sel[i], false) })
 	parallel(3, 3, func(i int) { c19DirtyGating(r, i, true) })
-	ncrash := tierPick(r, 3, 16)
+	ncrash := tierPick(r, 8, 16) // 8 = every key count 1..8 once; the stages of each are enumerated completely
 	parallel(ncrash, 8, func(i int) { c19Crash(r, i+int(r.Seed)%8, i%4 == 3) })
 	nwe := tierPick(r, 6, 30)
 	parallel(nwe, 6, func(i int) { c19WriteError(r, i+int(r.Seed)) })
